@@ -40,6 +40,10 @@ model lexer `lex` (and then `parseText`) reads back exactly what was written.
    * `lex_render_position`            the `k`-th token is `tks[k]`, starts at `advance 1 0` of the rendered prefix
                                       `renderTks sep (tks.take k)` and ends at `advance` of prefix ++ its text
    * `lex_render_position_prefix`     equal rendered prefixes ⇒ equal start position of the `k`-th token
+6. exactness (the conditions are necessary, not only sufficient)
+   * `lexOne_wf_iff`                  for well-formed `t`: `lexOne (t.text ++ rest) = .tok t |t.text| ↔ t.stops rest`
+   * **`lex_render_iff`**             for well-formed tokens and white-space runs: the lexer returns the written
+                                      tokens **iff** `Layout sep tks`;  `glue_iff`: `needsSpace` is exact
 5. non-vacuity: `exText` rendered with four layouts (kernel-evaluated; `#guard`s are tests), and examples showing
    that `Layout`, `needsSpace` and `Tk.WF` cannot be dropped.
 -/
@@ -1613,6 +1617,500 @@ theorem source_ne_of_shape_ne (f g : FileShape) (hf : f.WF) (hg : g.WF) (sep sep
     renderTks sep (printFile f) ≠ renderTks sep' (printFile g) :=
   fun e => h (source_injective f g hf hg sep sep' hl hl' e)
 
+/-! ## 6. exactness: `stops` and `Layout` are necessary, not only sufficient -/
+
+theorem spanLen_append_pre (p : Char → Bool) (a rest : List Char) (ha : ∀ x ∈ a, p x = true) :
+    spanLen p (a ++ rest) = a.length + spanLen p rest := by
+  induction a with
+  | nil => simp
+  | cons y a ih =>
+    simp only [List.cons_append, spanLen, ha y (by simp), if_true, List.length_cons]
+    rw [ih (fun x hx => ha x (List.mem_cons_of_mem _ hx))]; omega
+
+theorem idLen_ident_gen (a rest : List Char) (ha : isIdent a = true) :
+    idLen (a ++ rest) = a.length + spanLen isLetterOrDigit rest := by
+  cases a with
+  | nil => simp [isIdent] at ha
+  | cons c r =>
+    obtain ⟨h1, h2⟩ := isIdent_cons ha
+    simp only [List.cons_append, idLen, h1, if_true, List.length_cons]
+    rw [spanLen_append_pre _ _ _ h2]; omega
+
+/-- the number of characters of the continuation `rest` that a word or dotted name written before it swallows:
+    further letters/digits/`_`, then further `.x` components -/
+def extra (fuel : Nat) (rest : List Char) : Nat :=
+  spanLen isLetterOrDigit rest + nsidLen fuel (rest.drop (spanLen isLetterOrDigit rest))
+
+theorem extra_fuel (f1 f2 : Nat) (rest : List Char) (h1 : rest.length ≤ f1) (h2 : rest.length ≤ f2) :
+    extra f1 rest = extra f2 rest := by
+  simp only [extra]
+  rw [nsidLen_fuel f1 f2 _ (by simp only [List.length_drop]; omega) (by simp only [List.length_drop]; omega)]
+
+/-- **dotted names, exactly**: `nsidLen` on identifiers joined by dots, followed by anything -/
+theorem nsidLen_joinDots_gen (comps : List (List Char)) (rest : List Char) (hne : comps ≠ [])
+    (hall : ∀ a ∈ comps, isIdent a = true) (fuel : Nat)
+    (hf : (joinDots comps ++ rest).length ≤ fuel) :
+    nsidLen fuel (joinDots comps ++ rest) = (joinDots comps).length + extra fuel rest := by
+  induction comps generalizing fuel with
+  | nil => exact absurd rfl hne
+  | cons a t ih =>
+    have ha := hall a (by simp)
+    have hane := isIdent_ne_nil ha
+    have hapos : 0 < a.length := List.length_pos_iff.mpr hane
+    have hhd : ∀ X : List Char, (a ++ X).head? ≠ some '.' := by
+      intro X
+      cases a with
+      | nil => exact absurd rfl hane
+      | cons c r =>
+        simp; exact ne_of_pred (isIdent_cons ha).1 (by decide)
+    cases t with
+    | nil =>
+      simp only [joinDots] at hf ⊢
+      cases fuel with
+      | zero => simp only [List.length_append] at hf; omega
+      | succ f =>
+        simp only [List.length_append] at hf
+        rw [nsidLen_succ_nodot _ _ (hhd _), idLen_ident_gen a rest ha, List.drop_length_add_append]
+        have : a.length + spanLen isLetterOrDigit rest ≠ 0 := by omega
+        simp only [beq_iff_eq, this, if_false, extra]
+        rw [nsidLen_fuel f (f+1) _ (by simp only [List.length_drop]; omega)
+          (by simp only [List.length_drop]; omega)]
+        omega
+    | cons b t' =>
+      rw [joinDots_cons_cons, List.append_assoc, List.cons_append] at hf ⊢
+      have hall' : ∀ x ∈ b :: t', isIdent x = true := fun x hx => hall x (List.mem_cons_of_mem _ hx)
+      obtain ⟨c, r, hj, hc⟩ := joinDots_head (comps := b :: t') (by simp) hall'
+      cases fuel with
+      | zero => simp at hf
+      | succ f =>
+        have hdot : ∀ x, ('.' :: (joinDots (b :: t') ++ rest)).head? = some x → isLetterOrDigit x = false := by
+          intro x hx; simp at hx; subst hx; decide
+        rw [nsidLen_succ_nodot _ _ (hhd _), idLen_ident a _ ha hdot, List.drop_left' rfl]
+        simp only [List.length_append, List.length_cons] at hf
+        cases f with
+        | zero => omega
+        | succ f' =>
+          have e : '.' :: (joinDots (b :: t') ++ rest) = '.' :: c :: (r ++ rest) := by rw [hj]; rfl
+          rw [e, nsidLen_dot_cons f' c _ hc]
+          have e' : c :: (r ++ rest) = joinDots (b :: t') ++ rest := by rw [hj]; rfl
+          rw [e', ih (by simp) hall' (f'+1) (by simp only [List.length_append]; omega)]
+          have : a.length ≠ 0 := by omega
+          rw [extra_fuel (f'+1) (f'+1+1) rest (by omega) (by omega)]
+          simp only [beq_iff_eq, this, if_false, List.length_append, List.length_cons]
+          omega
+
+theorem spanLen_eq_zero {p : Char → Bool} {rest : List Char} (h : ∀ x, rest.head? = some x → p x = false) :
+    spanLen p rest = 0 := by
+  cases rest with
+  | nil => rfl
+  | cons c r => simp [spanLen, h c rfl]
+
+/-- nothing is swallowed exactly at a word stop -/
+theorem extra_eq_zero_iff (fuel : Nat) (rest : List Char) (hf : rest.length ≤ fuel) :
+    extra fuel rest = 0 ↔ wordStop rest = true := by
+  constructor
+  · intro h
+    simp only [extra] at h
+    have hk : spanLen isLetterOrDigit rest = 0 := by omega
+    have hm : nsidLen fuel rest = 0 := by
+      have : nsidLen fuel (rest.drop (spanLen isLetterOrDigit rest)) = 0 := by omega
+      rw [hk] at this; simpa using this
+    cases rest with
+    | nil => rfl
+    | cons c r =>
+      have hc : isLetterOrDigit c = false := by
+        cases hl : isLetterOrDigit c with
+        | false => rfl
+        | true => simp [spanLen, hl] at hk
+      simp only [wordStop]
+      split
+      · rename_i hd
+        have : c = '.' := by simpa using hd
+        subst this
+        cases r with
+        | nil => rfl
+        | cons d r' =>
+          cases hl : isLetter d with
+          | false => simp [hl]
+          | true =>
+            cases fuel with
+            | zero => simp at hf
+            | succ f =>
+              rw [nsidLen_dot_cons f d r' hl] at hm
+              omega
+      · simp [hc]
+  · intro h
+    simp only [extra]
+    rw [spanLen_eq_zero (wordStop_head h)]
+    simp [nsidLen_wordStop fuel h]
+
+/-- `nsidLen` on an identifier followed by anything -/
+theorem nsidLen_ident_gen (w rest : List Char) (hw : isIdent w = true) :
+    nsidLen (w ++ rest).length (w ++ rest) = w.length + extra (w ++ rest).length rest := by
+  have := nsidLen_joinDots_gen [w] rest (by simp) (by simpa using hw) _ (Nat.le_refl _)
+  simpa [joinDots] using this
+
+/-- `nsidLen` on a dotted name followed by anything -/
+theorem nsidLen_nsid_gen (w rest : List Char) (hw : isNsid w = true) :
+    nsidLen (w ++ rest).length (w ++ rest) = w.length + extra (w ++ rest).length rest ∧
+      idLen (w ++ rest) < w.length := by
+  cases w with
+  | nil => simp [isNsid] at hw
+  | cons c r =>
+    simp only [isNsid] at hw
+    split at hw
+    · rename_i hc
+      have : c = '.' := by simpa using hc
+      subst this
+      have hall : ∀ a ∈ dotSplit r, isIdent a = true := by simpa using hw
+      obtain ⟨c', r', hj, hc'⟩ := joinDots_head (dotSplit_ne_nil r) hall
+      rw [joinDots_dotSplit] at hj
+      subst hj
+      refine ⟨?_, ?_⟩
+      · simp only [List.cons_append, List.length_cons]
+        rw [nsidLen_dot_cons _ c' _ hc']
+        have := nsidLen_joinDots_gen (dotSplit (c' :: r')) rest (dotSplit_ne_nil _) hall
+          ((c' :: r' ++ rest).length + 1) (by rw [joinDots_dotSplit]; omega)
+        rw [joinDots_dotSplit] at this
+        simp only [List.cons_append, List.length_cons] at this
+        rw [this]; omega
+      · rw [idLen_eq_zero (by intro x hx; simp at hx; subst hx; decide)]; simp
+    · simp only [Bool.and_eq_true, List.all_eq_true, decide_eq_true_eq] at hw
+      obtain ⟨hall, h2⟩ := hw
+      refine ⟨?_, ?_⟩
+      · have := nsidLen_joinDots_gen (dotSplit (c :: r)) rest (dotSplit_ne_nil _) hall
+          (c :: r ++ rest).length (by rw [joinDots_dotSplit]; omega)
+        rw [joinDots_dotSplit] at this
+        exact this
+      · cases hd : dotSplit (c :: r) with
+        | nil => exact absurd hd (dotSplit_ne_nil _)
+        | cons a t =>
+          cases t with
+          | nil => rw [hd] at h2; simp at h2
+          | cons b t' =>
+            have hj := joinDots_dotSplit (c :: r)
+            rw [hd, joinDots_cons_cons] at hj
+            rw [← hj, List.append_assoc, List.cons_append,
+              idLen_ident a _ (hall a (by rw [hd]; simp)) (by intro x hx; simp at hx; subst hx; decide)]
+            simp only [List.length_append, List.length_cons]
+            omega
+
+theorem nsid_head_wordlike {c : Char} {r : List Char} (hw : isNsid (c :: r) = true) :
+    (isLetter c || c == '.') = true := by
+  simp only [isNsid] at hw
+  split at hw
+  · rename_i hc; simp [hc]
+  · simp only [Bool.and_eq_true, List.all_eq_true] at hw
+    obtain ⟨c', r', hj, hc'⟩ := joinDots_head (dotSplit_ne_nil (c :: r)) hw.1
+    rw [joinDots_dotSplit] at hj
+    cases hj; simp [hc']
+
+/-- converse of `lexOne_word`: a word is read with exactly its own length only before a word stop -/
+theorem lexOne_word_conv (w rest : List Char) (t : Tk) (hw : isIdent w = true) (hk : ∀ s, t ≠ .nsid s)
+    (h : lexOne (w ++ rest) = .tok t w.length) : wordStop rest = true := by
+  have hi := idLen_ident_gen w rest hw
+  have hn := nsidLen_ident_gen w rest hw
+  rw [← extra_eq_zero_iff (w ++ rest).length rest (by simp)]
+  cases w with
+  | nil => simp [isIdent] at hw
+  | cons c r =>
+    obtain ⟨h1, h2⟩ := isIdent_cons hw
+    rw [List.cons_append, lexOne_wordlike c _ (by simp [h1]), ← List.cons_append] at h
+    simp only [extra] at hn ⊢
+    split at h
+    · injection h with h3 h4
+      exact absurd h3.symm (hk _)
+    · rename_i hgt
+      split at h
+      · split at h <;> (injection h with h3 h4; omega)
+      · rename_i hpos
+        simp only [List.length_cons] at hi hpos
+        omega
+
+theorem lexOne_nsid_conv (w rest : List Char) (s : String) (hw : isNsid w = true)
+    (h : lexOne (w ++ rest) = .tok (.nsid s) w.length) : wordStop rest = true := by
+  obtain ⟨hn, hi⟩ := nsidLen_nsid_gen w rest hw
+  rw [← extra_eq_zero_iff (w ++ rest).length rest (by simp)]
+  cases w with
+  | nil => simp [isNsid] at hw
+  | cons c r =>
+    rw [List.cons_append, lexOne_wordlike c _ (nsid_head_wordlike hw), ← List.cons_append] at h
+    split at h
+    · injection h with h3 h4
+      omega
+    · split at h
+      · split at h <;> (injection h with h3 h4; cases h3)
+      · injection h with h3 h4; cases h3
+
+/-- **`stops` is exact**: the text of a well-formed token followed by `rest` is read back as that token with
+    exactly its own length **iff** `t.stops rest`. -/
+theorem lexOne_wf_iff (t : Tk) (rest : List Char) (hw : t.WF) :
+    lexOne (t.text.toList ++ rest) = .tok t t.text.toList.length ↔ t.stops rest = true := by
+  refine ⟨fun h => ?_, lexOne_wf t rest hw⟩
+  cases t with
+  | kw s =>
+    have hm : s ∈ literals := by simpa [Tk.WF, Tk.wf] using hw
+    have hc := List.all_eq_true.mp literals_classified s hm
+    simp only [Tk.text] at h
+    simp only [Tk.stops]
+    cases hs : s.toList with
+    | nil => rfl
+    | cons c r =>
+      simp only []
+      split
+      · rename_i hl
+        -- a word keyword
+        have hid : isIdent s.toList = true := by
+          simp only [kwClassOK, Bool.or_eq_true, beq_iff_eq] at hc
+          rcases hc with ((((hc | rfl) | rfl) | rfl) | rfl) | hc
+          · exact hc
+          · rw [show ".".toList = ['.'] from by decide +kernel] at hs; cases hs; exact absurd hl (by decide)
+          · rw [show "@import".toList = '@' :: "import".toList from by decide +kernel] at hs
+            cases hs; exact absurd hl (by decide)
+          · rw [show "@extern".toList = '@' :: "extern".toList from by decide +kernel] at hs
+            cases hs; exact absurd hl (by decide)
+          · rw [show "->".toList = ['-', '>'] from by decide +kernel] at hs; cases hs; exact absurd hl (by decide)
+          · rw [hs] at hc
+            cases r with
+            | cons d r' => simp at hc
+            | nil =>
+              simp only [isPunctChar, Bool.and_eq_true, Bool.not_eq_true', Bool.or_eq_false_iff] at hc
+              rw [hc.1.2.1] at hl; cases hl
+        exact lexOne_word_conv s.toList rest (.kw s) hid (by intro x hx; cases hx) h
+      · split
+        · rename_i hl hd
+          have : c = '.' := by simpa using hd
+          subst this
+          -- the keyword "."
+          have hr : r = [] := by
+            simp only [kwClassOK, Bool.or_eq_true, beq_iff_eq] at hc
+            rcases hc with ((((hc | rfl) | rfl) | rfl) | rfl) | hc
+            · rw [hs] at hc; exact absurd (isIdent_cons hc).1 (by decide)
+            · rw [show ".".toList = ['.'] from by decide +kernel] at hs; cases hs; rfl
+            · rw [show "@import".toList = '@' :: "import".toList from by decide +kernel] at hs; cases hs
+            · rw [show "@extern".toList = '@' :: "extern".toList from by decide +kernel] at hs; cases hs
+            · rw [show "->".toList = ['-', '>'] from by decide +kernel] at hs; cases hs
+            · rw [hs] at hc
+              cases r with
+              | cons d r' => simp at hc
+              | nil => rfl
+          subst hr
+          cases rest with
+          | nil => rfl
+          | cons d r' =>
+            simp only []
+            cases hl' : isLetter d with
+            | false => rfl
+            | true =>
+              rw [hs, List.cons_append, List.nil_append, lexOne_wordlike '.' _ (by decide)] at h
+              have h0 : idLen ('.' :: d :: r') = 0 := idLen_eq_zero (by intro x hx; simp at hx; subst hx; decide)
+              have h1 : nsidLen ('.' :: d :: r').length ('.' :: d :: r') > 0 := by
+                rw [List.length_cons, nsidLen_dot_cons _ d r' hl']; omega
+              rw [h0, if_pos h1] at h
+              injection h with h3 h4; cases h3
+        · rfl
+  | filepath s => rfl
+  | target s =>
+    simp only [Tk.WF, Tk.wf] at hw
+    simp only [Tk.text] at h
+    cases hl : s.toList with
+    | nil => rw [hl] at hw; simp [isTargetLit] at hw
+    | cons c r =>
+      rw [hl] at hw h
+      simp only [isTargetLit, Bool.and_eq_true, List.all_eq_true, Bool.not_eq_true',
+        List.isEmpty_eq_false_iff] at hw
+      obtain ⟨⟨h1, h2⟩, h3⟩ := hw
+      cases rest with
+      | nil => rfl
+      | cons d r' =>
+        simp only [Tk.stops]
+        cases hd : isLower d with
+        | false => rfl
+        | true =>
+          exfalso
+          have h3' : isWs c = false ∧ (c == '#') = false ∧ (c == '"') = false := by
+            rcases (by simpa using h1 : c = '+' ∨ c = '-') with rfl | rfl <;> decide
+          obtain ⟨a1, a2, a3⟩ := h3'
+          have hsp : spanLen isLower (r ++ d :: r') = r.length + (spanLen isLower r' + 1) := by
+            rw [spanLen_append_pre _ _ _ h3]; simp [spanLen, hd]
+          rw [List.cons_append, lexOne_cons] at h
+          simp only [a1, a2, a3, h1, Bool.false_eq_true, if_false, if_true] at h
+          rw [if_pos (by omega)] at h
+          injection h with h4 h5
+          simp only [List.length_cons] at h5
+          omega
+  | comment s =>
+    simp only [Tk.WF, Tk.wf] at hw
+    simp only [Tk.text] at h
+    cases hl : s.toList with
+    | nil => rw [hl] at hw; simp [isCommentLit] at hw
+    | cons c r =>
+      rw [hl] at hw h
+      simp only [isCommentLit, Bool.and_eq_true, beq_iff_eq, List.all_eq_true] at hw
+      obtain ⟨rfl, h2⟩ := hw
+      cases rest with
+      | nil => rfl
+      | cons d r' =>
+        simp only [Tk.stops]
+        cases hd : (d == '\n' || d == '\r') with
+        | true => rfl
+        | false =>
+          exfalso
+          have hd' : (d != '\r' && d != '\n') = true := by
+            simp only [Bool.or_eq_false_iff, beq_eq_false_iff_ne] at hd
+            simp [hd.1, hd.2]
+          have hsp : spanLen (fun x => x != '\r' && x != '\n') (r ++ d :: r') =
+              r.length + (spanLen (fun x => x != '\r' && x != '\n') r' + 1) := by
+            rw [spanLen_append_pre _ _ _ (by intro x hx; simpa using h2 x hx)]
+            simp only [spanLen, hd', if_true]
+          rw [List.cons_append, lexOne_cons, if_neg (by decide), if_pos (by decide)] at h
+          injection h with h4 h5
+          simp only [List.length_cons] at h5
+          omega
+  | id s =>
+    simp only [Tk.WF, Tk.wf, Bool.and_eq_true] at hw
+    exact lexOne_word_conv s.toList rest (.id s) hw.1 (by intro x hx; cases hx) h
+  | nsid s =>
+    exact lexOne_nsid_conv s.toList rest s hw h
+
+/-! ### `Layout` is exact -/
+
+theorem lexOne_skip_head {c : Char} {r : List Char} {n : Nat} (h : lexOne (c :: r) = .skip n) :
+    isWs c = true := by
+  rw [lexOne_cons] at h
+  split at h
+  · assumption
+  all_goals (repeat' split at h) <;> cases h
+
+/-- if the step on `t.text ++ rest` returns the kind `t`, it consumed exactly the text of `t` -/
+theorem lexOne_tok_len {t : Tk} {rest : List Char} {n : Nat}
+    (h : lexOne (t.text.toList ++ rest) = .tok t n) : n = t.text.toList.length := by
+  have h1 := congrArg List.length (lexOne_tok_text h)
+  have h2 := (lexOne_tok_bounds h).2
+  simp only [List.length_take, List.length_append] at h1 h2
+  omega
+
+theorem wordStop_of_append {c : Char} {r rest : List Char} (h : wordStop (c :: r ++ rest) = true) :
+    wordStop (c :: r) = true := by
+  simp only [wordStop, List.cons_append] at h ⊢
+  split
+  · rename_i hc
+    rw [if_pos hc] at h
+    cases r with
+    | nil => rfl
+    | cons d r' => exact h
+  · rename_i hc
+    rw [if_neg hc] at h
+    exact h
+
+/-- converse of `stops_append`: a continuation that is safe for `a` and starts with the text of `b` shows that
+    `b` may directly follow `a` -/
+theorem stops_of_append {a b : Tk} {rest : List Char} (hw : b.WF)
+    (h : a.stops (b.text.toList ++ rest) = true) : a.stops b.text.toList = true := by
+  obtain ⟨c, r, hbt, _⟩ := wf_text_head hw
+  rw [hbt] at h ⊢
+  cases a with
+  | kw s =>
+    simp only [Tk.stops] at h ⊢
+    split
+    · rfl
+    · rename_i c' r' hs
+      simp only [hs] at h
+      split
+      · rename_i hl; rw [if_pos hl] at h; exact wordStop_of_append h
+      · rename_i hl
+        rw [if_neg hl] at h
+        split
+        · rename_i hd; rw [if_pos hd] at h; exact h
+        · rfl
+  | filepath s => rfl
+  | target s => exact h
+  | comment s => exact h
+  | id s => exact wordStop_of_append h
+  | nsid s => exact wordStop_of_append h
+
+theorem kindsOf_wsPiece (run : List Char) (ps : List Piece) : kindsOf (wsPiece run ++ ps) = kindsOf ps := by
+  cases run <;> rfl
+
+/-- if the scan of a rendering (white-space runs only) returns the written tokens, the layout was admissible -/
+theorem fits_of_scan (s : Nat → List Char) (tks : List Tk) (hwf : ∀ t ∈ tks, t.WF)
+    (hws : ∀ i, ∀ x ∈ s i, isWs x = true)
+    (h : (scan (renderFrom s tks)).map kindsOf = some tks) : fitsFrom s tks = true := by
+  induction tks generalizing s with
+  | nil => rfl
+  | cons t ts ih =>
+    have hw := hwf t (by simp)
+    have hwf' : ∀ x ∈ ts, x.WF := fun x hx => hwf x (List.mem_cons_of_mem _ hx)
+    obtain ⟨c, r, hc, hcw⟩ := wf_text_head hw
+    have hne : renderFrom s (t :: ts) ≠ [] := by
+      simp only [renderFrom]
+      intro h
+      exact wf_text_ne_nil hw (List.append_eq_nil_iff.mp h).1
+    rw [scan_cons hne] at h
+    simp only [renderFrom] at h
+    cases hl : lexOne (t.text.toList ++ (s 0 ++ renderFrom (shift s) ts)) with
+    | err => rw [hl] at h; simp at h
+    | skip n =>
+      exfalso
+      rw [hc, List.cons_append] at hl
+      have := lexOne_skip_head hl
+      rw [hcw] at this; cases this
+    | tok t' n =>
+      rw [hl] at h
+      simp only [] at h
+      rw [map_kindsOf_tok] at h
+      obtain ⟨ks, hks, hcons⟩ := Option.map_eq_some_iff.mp h
+      injection hcons with e1 e2
+      subst e1; subst e2
+      have hn := lexOne_tok_len hl
+      subst hn
+      have hstop := (lexOne_wf_iff t' _ hw).mp hl
+      rw [List.drop_left' rfl, scan_wsPiece _ _ (hws 0) (renderFrom_head _ _ hwf'), Option.map_map] at hks
+      have hks' : (scan (renderFrom (shift s) ks)).map kindsOf = some ks := by
+        rw [← hks]
+        congr 1
+        funext ps
+        exact (kindsOf_wsPiece _ _).symm
+      have ih' := ih (shift s) hwf' (fun i => hws (i+1)) hks'
+      simp only [fitsFrom, Bool.and_eq_true]
+      refine ⟨?_, ih'⟩
+      simp only [sepOK, Bool.and_eq_true, List.all_eq_true]
+      refine ⟨hws 0, ?_⟩
+      cases hs0 : s 0 with
+      | nil =>
+        cases ks with
+        | nil => rfl
+        | cons b ts' =>
+          simp only [List.head?_cons, needsSpace, Bool.not_not]
+          rw [hs0] at hstop
+          simp only [List.nil_append, renderFrom] at hstop
+          exact stops_of_append (hwf' b (by simp)) hstop
+      | cons c' r' =>
+        rw [hs0] at hstop
+        cases t' <;> first | rfl | exact hstop
+
+/-- **`Layout` is exact.** For well-formed tokens separated by white-space runs, the lexer returns the written
+    tokens **iff** the layout is admissible: `Layout` cannot be weakened. -/
+theorem lex_render_iff (sep : Nat → List Char) (tks : List Tk) (hwf : ∀ t ∈ tks, t.WF)
+    (hws : ∀ i, ∀ x ∈ sep i, isWs x = true) :
+    (lex (renderTks sep tks)).map (·.map (·.tk)) = some tks ↔ Layout sep tks := by
+  refine ⟨fun h => ?_, lex_render sep tks hwf⟩
+  refine ⟨List.all_eq_true.mpr (hws 0), ?_⟩
+  apply fits_of_scan _ _ hwf (fun i => hws (i+1))
+  rw [lex_kinds, renderTks_toList, scan_wsPiece _ _ (hws 0) (renderFrom_head _ _ hwf), Option.map_map] at h
+  rw [← h]
+  congr 1
+  funext ps
+  exact (kindsOf_wsPiece _ _).symm
+
+/-- in particular `needsSpace` is exact: two well-formed tokens written without separator come back as the same
+    two tokens iff `needsSpace a b = false` -/
+theorem glue_iff (a b : Tk) (ha : a.WF) (hb : b.WF) :
+    (lex (renderTks (fun _ => []) [a, b])).map (·.map (·.tk)) = some [a, b] ↔ needsSpace a b = false := by
+  rw [lex_render_iff _ _ (by intro t ht; simp at ht; rcases ht with rfl | rfl <;> assumption) (by simp)]
+  simp [Layout, fitsFrom, sepOK, shift]
+
+
 /-! ### two canonical layouts, admissible for every token sequence -/
 
 /-- the *tight* layout: nothing between two tokens unless `needsSpace` demands it (then one blank; one line end
@@ -1811,6 +2309,9 @@ example : FileShape.good { loads := [], contents := [.decl (.enum "record" [] []
     FileShape.good { loads := [], contents := [.decl (.enum "e" ["doc"] [])] } = false := by decide +kernel
 
 #print axioms lexOne_wf
+#print axioms lexOne_wf_iff
+#print axioms lex_render_iff
+#print axioms glue_iff
 #print axioms scan_renderFrom
 #print axioms lex_render_exact
 #print axioms lex_render
